@@ -113,3 +113,36 @@ fn c01_version_chain_gc_preserves_views() {
     kani::cover!(ch.version_count() == 3);
     std::mem::forget(ch);
 }
+
+//@ property: C02
+//@ tier: quick
+//@ cap_s: 400
+//@ mem_gb: 10
+//@ encodes: VersionChain::{add_version,mark_deleted,remove_versions_by,visible_to,visible_at,modified_by,version_count,is_empty}
+//@ symbolic: a committed base version and two versions written by the rolled-back transaction (epochs, creators, payloads symbolic), viewer epoch and transaction
+//@ bound: version chain kernel of rollback: chains of 3 versions
+//@ oracle: all-or-nothing at the chain level: after remove_versions_by(tx) NONE of tx's versions is visible to anyone (including tx itself), and what every viewer sees is exactly what it saw of the other creators' versions before
+#[kani::proof]
+#[kani::unwind(5)]
+fn c02_chain_rollback_is_all_or_nothing() {
+    let mut ch: VersionChain<u8> = VersionChain::new();
+    let (base_c, base_by): (u64, u64) = (kani::any(), kani::any());
+    let tx: u64 = kani::any();
+    kani::assume(base_by != tx);
+    let (c1, c2): (u64, u64) = (kani::any(), kani::any());
+    ch.add_version(0, EpochId::new(base_c), TxId::new(base_by));
+    ch.add_version(1, EpochId::new(c1), TxId::new(tx));
+    ch.add_version(2, EpochId::new(c2), TxId::new(tx));
+    let (e, viewer): (u64, u64) = (kani::any(), kani::any());
+    // what the viewer would see if tx had never written: the base version alone
+    let base_only = if base_by == viewer { true } else { base_c <= e };
+    ch.remove_versions_by(TxId::new(tx));
+    assert!(!ch.modified_by(TxId::new(tx)));
+    assert!(ch.version_count() == 1);
+    let got = ch.visible_to(EpochId::new(e), TxId::new(viewer)).copied();
+    assert!(got == if base_only { Some(0) } else { None }, "after rollback a viewer sees something other than the pre-transaction state");
+    assert!(got != Some(1) && got != Some(2));
+    kani::cover!(got == Some(0) && viewer == tx);
+    kani::cover!(got.is_none());
+    std::mem::forget(ch);
+}
